@@ -25,14 +25,37 @@ RULE = (
 )
 
 import decimal
+import enum
 import fractions
+
+
+class Road(enum.Enum):
+    """Members of a plain Enum are truthy whatever their value is."""
+
+    NONE = 0
+    UNNAMED = ""
+    PAVED = 2
+
+
+class Lanes(enum.IntEnum):
+    """... whereas IntEnum / Flag members follow their value."""
+
+    ZERO = 0
+    TWO = 2
+
+
+class Perm(enum.Flag):
+    NOTHING = 0
+    READ = 1
+
 
 # (after the first eight: the special values of the numeric tower - all of them truthy - and what weight / capacity /
 # distance matrices hold: infinities, NaN, tiny and huge magnitudes, exact rationals and decimals, complex numbers)
 TRUTHY = [1, True, "x", 2.5, [0], "OBJ", -1, (0,),
           float("inf"), float("-inf"), float("nan"), decimal.Decimal("Infinity"), decimal.Decimal("0.1"),
-          fractions.Fraction(1, 3), 5e-324, 1e308, 10 ** 30, -0.5, 1j, "0", "False", b"\x00"]
-FALSY = [0, None, "", [], 0.0, False, ()]
+          fractions.Fraction(1, 3), 5e-324, 1e308, 10 ** 30, -0.5, 1j, "0", "False", b"\x00",
+          Road.NONE, Road.UNNAMED, Road.PAVED, Lanes.TWO, Perm.READ]
+FALSY = [0, None, "", [], 0.0, False, (), Lanes.ZERO, Perm.NOTHING, decimal.Decimal(0), -0.0, 0j, fractions.Fraction(0), b"", range(0)]
 CLASSES = ["DirectedEdge", "UnDirectedEdge", "DSub", "USub", "OtherLink", "TwoEndedLink", "RenamedEdge", "PosOnlyEdge", "MixEdge", "FalsyEdge"]
 
 
